@@ -19,6 +19,7 @@ Inductive penc :=
 | ERequired (e : penc)
 | EPick (e : penc) (k : kenc)
 | EOmit (e : penc) (k : kenc)
+| EIface (sym : str) (c : N) (i : node) (parents : list penc)
 | EInter (es : list penc)
 | EUnion (es : list penc).
 
@@ -36,6 +37,7 @@ Fixpoint enc_p (e : penc) : node :=
   | ERequired e => tref (s_ "Required") (e_unres E) [enc_p e]
   | EPick e k => tref (s_ "Pick") (e_unres E) [enc_p e; enc_k k]
   | EOmit e k => tref (s_ "Omit") (e_unres E) [enc_p e; enc_k k]
+  | EIface sym c _ _ => tref sym c []
   | EInter es => gobj "TsIntersectionType" [fld "types" (NArr (map enc_p es))]
   | EUnion es => gobj "TsUnionType" [fld "types" (NArr (map enc_p es))]
   end.
@@ -48,6 +50,7 @@ Fixpoint den (e : penc) : list relem :=
   | ERequired e => map (set_optional false) (den e)
   | EPick e k => filter (fun x => key_in (names k) x false) (den e)
   | EOmit e k => filter (fun x => negb (key_in (names k) x false)) (den e)
+  | EIface _ _ i ps => refine_members (iface_body i) ++ flat_map den ps
   | EInter es | EUnion es => flat_map den es
   end.
 
@@ -56,11 +59,20 @@ Fixpoint pdepth (e : penc) : nat :=
   | ELit _ => 1
   | EParen e | EOptional e | EAlias _ _ _ e | EPartial e | ERequired e => S (pdepth e)
   | EPick e k | EOmit e k => S (Nat.max (pdepth e) (kdepth k))
-  | EInter es | EUnion es => S (fold_right (fun e a => Nat.max (pdepth e) a) 0%nat es)
+  | EIface _ _ _ es | EInter es | EUnion es => S (fold_right (fun e a => Nat.max (pdepth e) a) 0%nat es)
   end.
 
 Definition undecl (n : str) : Prop :=
   reg_get n (e_unres E) (aliases s) = None /\ reg_get n (e_unres E) (interfaces s) = None.
+
+(* the references resolve_type_elements builds for the `extends` clauses of a stored interface *)
+Definition parent_refs (i : node) : list node :=
+  fold_right (fun p acc => match tf "expression" p with
+                           | Ident ps pc po =>
+                               gobj "TsTypeReference"
+                                    [fld "typeName" (Ident ps pc po); fld "typeParams" nnull] :: acc
+                           | _ => acc
+                           end) [] (iface_extends i).
 
 Fixpoint pwf (e : penc) : Prop :=
   match e with
@@ -71,6 +83,10 @@ Fixpoint pwf (e : penc) : Prop :=
   | ERequired e => undecl (s_ "Required") /\ pwf e
   | EPick e k => undecl (s_ "Pick") /\ pwf e /\ kwf s k
   | EOmit e k => undecl (s_ "Omit") /\ pwf e /\ kwf s k
+  | EIface sym c i ps =>
+      reg_get sym c (aliases s) = None /\ reg_get sym c (interfaces s) = Some i /\
+      parent_refs i = map enc_p ps /\
+      (fix all (l : list penc) : Prop := match l with [] => True | x :: r => pwf x /\ all r end) ps
   | EInter es | EUnion es =>
       (fix all (l : list penc) : Prop := match l with [] => True | x :: r => pwf x /\ all r end) es
   end.
@@ -87,6 +103,7 @@ Hypothesis Hpartial : forall e, P e -> P (EPartial e).
 Hypothesis Hrequired : forall e, P e -> P (ERequired e).
 Hypothesis Hpick : forall e k, P e -> P (EPick e k).
 Hypothesis Homit : forall e k, P e -> P (EOmit e k).
+Hypothesis Hiface : forall sym c i ps, Forall P ps -> P (EIface sym c i ps).
 Hypothesis Hinter : forall es, Forall P es -> P (EInter es).
 Hypothesis Hunion : forall es, Forall P es -> P (EUnion es).
 Fixpoint penc_ind' (e : penc) : P e :=
@@ -101,6 +118,7 @@ Fixpoint penc_ind' (e : penc) : P e :=
   | ERequired e => Hrequired e (penc_ind' e)
   | EPick e k => Hpick e k (penc_ind' e)
   | EOmit e k => Homit e k (penc_ind' e)
+  | EIface sym c i ps => Hiface sym c i ps (go ps)
   | EInter es => Hinter es (go es)
   | EUnion es => Hunion es (go es)
   end.
@@ -133,6 +151,14 @@ Proof.
   apply filter_ext. intros x. unfold key_in. destruct (relem_key x) as [[]|]; reflexivity.
 Qed.
 
+Lemma rte_iface f sym c i :
+  reg_get sym c (aliases s) = None -> reg_get sym c (interfaces s) = Some i ->
+  rte E (S f) (tref sym c []) s =
+  let '(inh, s') := fold_left (fun '(acc, s) t => let '(x, s) := rte E f t s in (acc ++ x, s))
+                              (parent_refs i) ([], s) in
+  (refine_members (iface_body i) ++ inh, s').
+Proof. intros Ha Hi. cbn -[reg_get]. rewrite Ha, Hi. reflexivity. Qed.
+
 Theorem rte_exact : forall e, exact_at e.
 Proof.
   induction e using penc_ind'; unfold exact_at; intros [|f] Hd Hw; try (cbn in Hd; lia); cbn [pdepth] in Hd.
@@ -150,6 +176,8 @@ Proof.
     rewrite (rsus_exact E s k f ltac:(lia) Hk). rewrite (IHe f ltac:(lia) Hw). reflexivity.
   - destruct Hw as [Hu [Hw Hk]]. cbn [enc_p den]. rewrite (rte_omit f (enc_p e) (enc_k k) Hu).
     rewrite (rsus_exact E s k f ltac:(lia) Hk). rewrite (IHe f ltac:(lia) Hw). reflexivity.
+  - destruct Hw as [Ha [Hi [Hp Hw]]]. cbn [enc_p den]. rewrite (rte_iface f sym c i Ha Hi). rewrite Hp.
+    rewrite (list_fold ps H f [] ltac:(lia) Hw). reflexivity.
   - cbn [enc_p den]. cbn -[rte fold_left map]. apply (list_fold es H f [] ltac:(lia) Hw).
   - cbn [enc_p den]. cbn -[rte fold_left map]. apply (list_fold es H f [] ltac:(lia) Hw).
 Qed.
@@ -162,3 +190,14 @@ Definition penc_example : penc :=
           EPick (ELit [gobj "TsPropertySignature" [fld "key" (Ident (s_ "a") 0 false)]]) (KUnion [KLit (s_ "a") nnull])].
 Lemma penc_example_ok : pwf E_dummy st0 penc_example /\ (pdepth penc_example <= type_fuel)%nat.
 Proof. split; [cbn; repeat split|vm_compute; repeat constructor]. Qed.
+
+(* non-vacuity for interfaces: `interface B { a } interface J extends B { b }` *)
+Definition iB : node := NArr [NArr []; NArr [gobj "TsPropertySignature" [fld "key" (Ident (s_ "a") 0 false)]]].
+Definition iJ : node :=
+  NArr [NArr [gobj "TsExpressionWithTypeArguments" [fld "expression" (Ident (s_ "B") 5 false)]];
+        NArr [gobj "TsPropertySignature" [fld "key" (Ident (s_ "b") 0 false)]]].
+Definition st_iface : st := set_interfaces [(s_ "B", 5%N, iB); (s_ "J", 5%N, iJ)] st0.
+Definition iface_example : penc := EIface (s_ "J") 5 iJ [EIface (s_ "B") 5 iB []].
+Lemma iface_example_ok :
+  pwf E_dummy st_iface iface_example /\ List.length (den iface_example) = 2%nat.
+Proof. split; [vm_compute; repeat split|vm_compute; reflexivity]. Qed.
